@@ -36,6 +36,7 @@ class TaskHandler:
         self._pending = {}
         self._job_id = 0
         self._lock = threading.Lock()
+        self._accept_lock = threading.Lock()
         self._open = True
 
     def _next_id(self):
@@ -56,11 +57,14 @@ class TaskHandler:
         :param args: the args to pass to the function
         :return: a future that can be listened to for completion
         """
-        self.__check_open()
-        next_id = self._next_id()
-        # there is an at exit in threading that prevents submitting tasks after shutdown, but no api to check this
-        future = self._pool.submit(task, *args)
-        self._pending[next_id] = future
+        # accepting a task (check + register) is atomic with respect to flush closing the handler: a submission racing
+        # with flush is either refused, or registered before flush looks at the pending tasks (and so waited for)
+        with self._accept_lock:
+            self.__check_open()
+            next_id = self._next_id()
+            # there is an at exit in threading that prevents submitting tasks after shutdown, but no api to check this
+            future = self._pool.submit(task, *args)
+            self._pending[next_id] = future
 
         # cannot use 'del' in lambda: https://stackoverflow.com/a/41953232/5151254
         def callback(_future: Future):
@@ -74,10 +78,12 @@ class TaskHandler:
 
     def flush(self):
         """Await completion of all pending tasks."""
-        self._open = False
-        if len(self._pending) > 0:
-            for key in dict(self._pending).keys():
-                get = self._pending.get(key)
+        with self._accept_lock:
+            self._open = False
+            pending = dict(self._pending)
+        if len(pending) > 0:
+            for key in pending.keys():
+                get = pending.get(key)
                 if get is not None:
                     try:
                         # use the future we already hold: the completion callback may remove the entry meanwhile
